@@ -136,6 +136,8 @@ def run(ctx):
         ctx.need(r, "trace validation")
         allv += vlib.trace_viols(r)
         st = r.printed("STATS")
+        if len(r.printed("VIOL")) != 1:
+            raise vlib.Inconclusive("trace validation: the violation set of a shard could not be read")
         if not st:
             raise vlib.Inconclusive("trace validation did not reach the end of a shard")
         for k in tot:
